@@ -178,6 +178,15 @@ def run(scenario, preemptions=None, choices=None, step_limit=60000,
                                 scheduler.log, op[1]):
                             scheduler.sleep(1 / 64)
                             limit -= 1
+                    elif kind == 'await_current':
+                        # until the controller reports that job as the one
+                        # that is running (busy polling: the caller stays
+                        # runnable, so it can be switched to at any step)
+                        limit = 3000
+                        while limit > 0 and not control.is_running(op[1]):
+                            scheduler.yield_point()
+                            limit -= 1
+                        value = control.is_running(op[1])
                     elif kind == 'wait_idle':
                         # poll, like tests/script_runner.py does
                         limit = op[1]
